@@ -19,6 +19,7 @@ import (
 	"net/http"
 	"net/url"
 	"os"
+	"regexp"
 	"sort"
 	"strconv"
 	"strings"
@@ -1170,6 +1171,8 @@ func (r *c18Runner) report(expr string, pe parser.Expr, mode string, bt int64, r
 	}
 	if ek := r.explain(blamed, pe, mode, bt, rq, cls, diff, want, got); ek != "" {
 		kind = ek
+	} else if ek := r.explainLayout(blamed, pe, mode, bt, rq, cls, diff); ek != "" {
+		kind = ek
 	} else if lk := r.layoutKind(expr, pe, blamed, mode, bt, rq, want); lk != "" {
 		kind = lk
 	}
@@ -1660,6 +1663,18 @@ func TestVerifC18(t *testing.T) {
 	if e := os.Getenv("VERIF_C18_EXPR"); e != "" {
 		exprs = strings.Split(e, ";;")
 		raw = exprs
+	}
+	if re := os.Getenv("VERIF_C18_ONLY"); re != "" { // development: only the expressions matching a regular expression
+		rx := regexp.MustCompile(re)
+		keep := func(in []string) (out []string) {
+			for _, e := range in {
+				if rx.MatchString(e) {
+					out = append(out, e)
+				}
+			}
+			return
+		}
+		exprs, raw = keep(exprs), keep(raw)
 	}
 	layouts := c18SegLayouts(tier)
 	if l := os.Getenv("VERIF_C18_LAYOUTS"); l != "" { // development: "none", or a comma separated list
